@@ -507,6 +507,29 @@ def quiesceLoop {σ} (cfg : DevCfg σ) : Nat → DevState σ → DevState σ × 
       let (s2, o2) := quiesceLoop cfg n s1
       (s2, o1 ++ o2)
 
+/-- virtual time passes: every transaction timer due up to instant `t` fires in order, then the
+    clock stands at `t` (nothing else of the device depends on the clock) -/
+def advanceLoop {σ} (cfg : DevCfg σ) (t : Nat) : Nat → DevState σ → DevState σ × List Out
+  | 0, s => (s, [])
+  | n + 1, s =>
+    match nextDue s.sap.servers with
+    | some (_, d) =>
+      if d ≤ t then
+        match fire cfg s with
+        | none => (s, [])
+        | some (s1, o1) =>
+          let (s2, o2) := advanceLoop cfg t n s1
+          (s2, o1 ++ o2)
+      else (s, [])
+    | none => (s, [])
+
+/-- `dt` microseconds without any datagram (`core.run` between two arrivals).  The
+    Network-Number-Is answer task (10 000 s) is not looked at: see `quiesce`. -/
+def advance {σ} (cfg : DevCfg σ) (s : DevState σ) (dt : Nat) : DevState σ × List Frame :=
+  let t := s.sap.now + dt
+  let (s', outs) := advanceLoop cfg t (budget cfg.base.retries s.sap.servers) s
+  ({ s' with sap := { s'.sap with now := max s'.sap.now t } }, emitAll s'.net s'.routes outs)
+
 /-- `core.run` until no transaction task is scheduled.  The loop is cut after
     `budget` firings; `C10.quiesce_complete` shows that no timer is armed then. -/
 def quiesce {σ} (cfg : DevCfg σ) (s : DevState σ) : DevState σ × List Frame :=
